@@ -19,7 +19,14 @@ def cfg_of(trace):
     for w in trace.cfg.split()[2:]:
         k, v = w.split("=", 1)
         d[k] = v
+    if d.get("tmo") == "h":
+        d["tmo"] = "f"     # Duration::MAX is a finite timeout (whose deadline never passes)
     return d
+
+
+def norm_tmo(words):
+    """timeout kinds of an operation's spec: `h` (Duration::MAX) is a finite timeout"""
+    return ["f" if w == "h" else w for w in words]
 
 
 def events(obs):
@@ -48,7 +55,7 @@ class Run:
             ws = a.split()
             if ws[0] == "start":
                 kind = ws[1]
-                op = {"kind": kind, "spec": ws[2:], "obj": None, "start": k}
+                op = {"kind": kind, "spec": norm_tmo(ws[2:]) if kind == "get" else ws[2:], "obj": None, "start": k}
                 if kind in ("ret", "take"):
                     op["obj"] = ws[2]
                 if kind == "resize":
@@ -231,9 +238,47 @@ def mon_C11(run):
     return bad[:1]
 
 
+def mon_C10_unmanaged(run):
+    """the unmanaged pool's single timeout: every result has its documented cause"""
+    bad = []
+    rt = run.cfg.get("rt") == "1"
+    closed_seen = False
+    for row in run.rows:
+        if row is None:
+            continue
+        k, d = row["k"], row["obs"]
+        if d.get("closed") == "1":
+            closed_seen = True
+        for e in row["ev"]:
+            name, args = ev_args(e)
+            if name != "result":
+                continue
+            op = run.ops[int(args[0])]
+            r = args[1].split(":")[0]
+            kind = op["kind"]
+            if kind not in ("uget", "uremove", "utryget", "utryremove"):
+                continue
+            tmo = (op["spec"] or ["n"])[0] if kind in ("uget", "uremove") else "z"
+            if tmo == "d":
+                tmo = run.tmo
+            if r == "closed" and not closed_seen:
+                bad.append((k, f"{kind[1:]} #{args[0]} reported Closed on a pool that had not been closed"))
+            if r == "no_runtime" and not (tmo == "f" and not rt):
+                bad.append((k, f"{kind[1:]} #{args[0]} (timeout {tmo}, runtime {'present' if rt else 'absent'}) reported NoRuntimeSpecified"))
+            if tmo == "f" and not rt and r not in ("no_runtime", "cancelled"):
+                bad.append((k, f"{kind[1:]} #{args[0]} with a finite timeout and no runtime ended with {r} instead of NoRuntimeSpecified"))
+            if r == "timeout" and tmo == "n":
+                bad.append((k, f"{kind[1:]} #{args[0]} without any timeout reported Timeout"))
+        if bad:
+            return bad[:1]
+    return bad[:1]
+
+
 def mon_C10(run):
     """timeouts / non-blocking / missing runtime: every result variant has its documented
     cause, judged from what the scripted environment did"""
+    if isinstance(run, URun):
+        return mon_C10_unmanaged(run)
     bad = []
     rt = run.cfg.get("rt") == "1"
     prev = {}          # op -> (label, susp) before the current step
@@ -408,6 +453,10 @@ def mon_C03(run):
             if before[c] != after[c]:
                 bad.append((rows[j]["k"], f"{what}: {c} was {before[c]} before the call and is {after[c]} after it"))
         ib, ia = parse_list(before["idle"]), parse_list(after["idle"])
+        if ib is None or ia is None or "?" in (before["size"], after["size"]):
+            # the slots mutex was unavailable at one of the two snapshots (a resize in progress)
+            k = j + 1
+            continue
         if not is_sublist(ia, ib):
             bad.append((rows[j]["k"], f"{what}: idle queue {ia} is not a sub-list of {ib}"))
         if int(before["size"]) - int(after["size"]) != len(ib) - len(ia):
@@ -768,7 +817,7 @@ class URun:
         for k, (a, o, sec) in enumerate(trace.steps):
             ws = a.split()
             if ws[0] == "start":
-                op = {"kind": ws[1], "spec": ws[2:], "obj": None, "start": k}
+                op = {"kind": ws[1], "spec": norm_tmo(ws[2:]) if ws[1] in ("uget", "uremove") else ws[2:], "obj": None, "start": k}
                 if ws[1] in ("uadd", "utryadd"):
                     op["obj"] = str(next_id)
                     next_id += 1
@@ -832,6 +881,11 @@ def mon_C05(run):
         in_pool = len(row["queue"]) + len(row["hands"])
         if in_pool > run.max0:
             bad.append((k, f"{in_pool} objects in the pool > max_size {run.max0}"))
+        # at rest (no operation in progress, pool open) the free slots are exactly max_size - size:
+        # add / try_add proceed as soon as a remove or take has freed a slot
+        if not unfinished and d["closed"] == "0" and d.get("sclosed", "0") == "0" and "spermits" in d:
+            if int(d["spermits"]) != run.max0 - in_pool:
+                bad.append((k, f"at rest {d['spermits']} slot(s) are free for add(), but max_size {run.max0} - {in_pool} object(s) in the pool = {run.max0 - in_pool}"))
         u_blocked_ok(run, row, bad)
         for e in row["ev"]:
             name, args = ev_args(e)
